@@ -23,6 +23,8 @@ import FV.Model.Monitor
 import FV.Proofs.Adapter
 import FV.Proofs.AdapterProgress
 import FV.Proofs.Monitor
+import FV.Model.Flapping
+import FV.Proofs.Flapping
 import FV.Model.Framed
 import FV.Proofs.Framed
 import FV.Model.NatsClient
@@ -333,6 +335,52 @@ theorem c15_monitors_independent (ms : List Inst) (as : List MAct) (i : Nat) (m 
     (multiRun ms as).filterMap (fun e => if e.1 = i then some e.2 else none) = singleRun m as i :=
   multi_independent ms as i m hm
 
+/-! ### A flapping peer (`FV.Flapping`: the runner as the consumer of the monitor channel) -/
+
+/-- One report per failure under flapping: for EVERY script of the runner's Opens (refused /
+accepted-and-dies-at-once / healthy, any mix, any length), EVERY policy and EVERY interleaving of
+environment failures and runner handlings in which only the monitor reopens the transport: the
+number of close reports the runner has handled plus the (at most one) cause still waiting in its
+channel equals the number of actual failures of an open transport — no report without a failure
+(`reports ≤ failures`), no second report for one failure, no failure lost (`dropped = 0`); a waiting
+cause has a live runner to take it; once the channel is empty `reports = failures` exactly. -/
+theorem c15_flapping_one_report_per_failure (p : Policy) (script : List Flapping.Outcome) (acts : List Flapping.Act)
+    (hn : ∀ a ∈ acts, a ≠ .appOpen) :
+    let s := Flapping.run p (Flapping.init script) acts
+    s.failures = s.reports + s.chan ∧ s.chan ≤ 1 ∧ s.dropped = 0 ∧ s.reports ≤ s.failures ∧
+    (s.chan = 1 → s.alive = true ∧ s.isOpen = false) ∧ (s.chan = 0 → s.reports = s.failures) := by
+  have hf := Flapping.finv_run p (Flapping.finv_init script) acts
+  have hm := Flapping.minv_run p (Flapping.finv_init script) (Flapping.minv_init script) acts hn
+  have h1 := hf.account
+  have h2 := hf.cap
+  have h3 := hm.noDrop
+  refine ⟨by omega, h2, h3, by omega, ?_, by intro h; omega⟩
+  intro hc
+  constructor
+  · cases ha : (Flapping.run p (Flapping.init script) acts).alive with
+    | true => rfl
+    | false => have := (hm.deadClosed ha).2; omega
+  · cases ho : (Flapping.run p (Flapping.init script) acts).isOpen with
+    | false => rfl
+    | true => have := hm.openEmpty ho; omega
+
+/-- … and with the application reopening the transport itself at any time: every failure is
+accounted for — reported, waiting, or (only then possible) found the capacity-1 channel full. -/
+theorem c15_flapping_report_accounting (p : Policy) (script : List Flapping.Outcome) (acts : List Flapping.Act) :
+    let s := Flapping.run p (Flapping.init script) acts
+    s.failures = s.reports + s.chan + s.dropped ∧ s.chan ≤ 1 :=
+  ⟨(Flapping.finv_run p (Flapping.finv_init script) acts).account, (Flapping.finv_run p (Flapping.finv_init script) acts).cap⟩
+
+/-- The runner is alive whenever the transport is open and was (re)opened by the monitor: in every
+reachable state (any script, any policy, any interleaving, application reopens included) such a
+transport still has its runner, and the channel is empty — the next failure will be taken. -/
+theorem c15_runner_alive_while_open (p : Policy) (script : List Flapping.Outcome) (acts : List Flapping.Act) :
+    let s := Flapping.run p (Flapping.init script) acts
+    s.isOpen = true → s.byMonitor = true → s.alive = true ∧ s.chan = 0 := by
+  intro s ho hb
+  have hf := Flapping.finv_run p (Flapping.finv_init script) acts
+  exact ⟨hf.aliveOpen ho hb, hf.openEmpty ho hb⟩
+
 /-- The excluded configuration: with `InitialWait > MaxWait` the first wait exceeds `MaxWait`. -/
 theorem c15_waits_counterexample :
     ∃ w ∈ sleeps (handleClose (Base.policy ⟨3, 5, 2⟩) false [true]), w > (2 : Int) := by
@@ -460,6 +508,12 @@ example : Framed.deframe ((Framed.encode [[1, 2], [3, 4, 5]]).take 11) = ([[1, 2
 example : (NatsClient.run NatsClient.init [.open, .connClose, .close, .close]).incs = [⟨0, false⟩] ∧
     (NatsClient.run NatsClient.init [.open, .close, .open, .brokerDown, .close, .brokerUp, .open]).incs =
       [⟨1, true⟩, ⟨1, true⟩, ⟨0, false⟩] := by decide
+
+/-- a flapping script: failure, two connections that die at once, a healthy one, a later failure, healed:
+four failures, four reports, transport open by the monitor, runner alive -/
+example : (fun s : Flapping.Sys => (s.failures, s.reports, s.chan, s.dropped, s.isOpen, s.byMonitor, s.alive))
+    (Flapping.run (Base.policy ⟨3, 0, 0⟩) (Flapping.init [.flap, .flap, .healthy, .refused, .healthy])
+      [.fail, .handle, .handle, .handle, .fail, .handle]) = (4, 4, 0, 0, true, true, true) := by decide
 
 example : attempts (handleClose (Base.policy ⟨2, 1, 4⟩) false [false, false, true]) = 2 := by decide
 example : sleeps (handleClose (Base.policy ⟨3, 1, 3⟩) false [false, false, true]) = [1, 2, 3] := by decide
